@@ -61,5 +61,10 @@ def toI64? (a : Int) : Option Int :=
 def isNeg (a : Int) : Bool := decide (a < 0)
 def abs (a : Int) : Int := if a < 0 then -a else a
 
+/-- the powers of ten as I80F48 bit patterns, 10^0 .. 10^23: what the program's scaling table `EXP_10_I80F48` is FOR.
+    The model computes them itself (it does not read the program's table), so a wrong row of that table is a
+    disagreement with the implementation on the decimals it serves. -/
+def POW10FX : List Int := (List.range 24).map fun i => 10 ^ i * ONE
+
 end Fx
 end Mfi
